@@ -46,6 +46,10 @@ CHECKS["C18"] = dict(engine="mw-stateful", category="exploration",
 CHECKS["C19"] = dict(engine="mw-metrics", category="exploration",
    text="Same harness with the Prometheus middleware and 1-4 concurrent sessions: transparency as in C17, and at every sync point, at the end and after all sessions ended Gather() is compared with the harness truth (connection gauge = live sessions; per-type and per-kind counters exact; subscription gauge within the set of values reachable by linearizations of REQ/CLOSE/CLOSED consistent with their stamped intervals). Sampling, not proof.",
    note=MW_NOTE, technique="deterministic simulation: seeded histories and interleavings + gauge/counter oracle at quiescent points", design="3/C19")
+CHECKS["C06"] = dict(engine="sqlite-store", category="exploration",
+   text="Seeded batch histories against the real SQLite store (go-sqlite3, in-memory and file databases, DELETE/WAL), inserted directly or through concurrent handler sessions whose interleaving decides the batch split; after every batch the match-everything answer is judged against the specification set built from the statement (newest per address, deletion regardless of arrival order, ephemeral never stored, all seven fields) and 1-4 random filter lists against it with the tie-tolerant answer checker. Fault-free configuration (C14 owns faults). Sampling, not proof.",
+   note="Trusted: the reference predicate/answer checker and store specification (sqlite_engine.go); SQLite and database/sql are real code, not models.",
+   technique="deterministic simulation: seeded batch histories (schedule-decided batch split) + specification set and answer checker", design="3/C06")
 ALL = ["C%02d" % i for i in range(1, 21)]
 PENDING = "check not built yet in this revision of /verif (planned: DESIGN.md section 3); not claimed"
 m = {
@@ -63,6 +67,7 @@ m = {
    {"name": "concurrent-cache", "path": "sim/props/c15_concurrent.go", "serves_properties": ["C15"], "kind_free_text": "statement-level interleavings of cache operations, porcupine linearizability check"},
    {"name": "merge", "path": "sim/props/merge_engine.go", "serves_properties": ["C08", "C09"], "kind_free_text": "real MergeHandler over scripted children, every emission a scheduler decision"},
    {"name": "mw-limits / mw-stateful / mw-metrics", "path": "sim/props/mw_engine.go", "serves_properties": ["C17", "C18", "C19"], "kind_free_text": "middleware stacks between scripted clients and a recording downstream, simulated clock"},
+   {"name": "sqlite-store", "path": "sim/props/sqlite_engine.go", "serves_properties": ["C06"], "kind_free_text": "real SQLite behind database/sql, batch histories, specification set"},
    {"name": "cache", "path": "sim/props/cache_engine.go", "serves_properties": ["C03", "C04", "C05"], "kind_free_text": "seeded operation and restart-fault sequences against an executable specification (relation)"},
  ],
  "checks": [],
